@@ -535,7 +535,7 @@ def oracle(p):
                     wantv = float(val) / den
                     if abs(float(v[(b_, 0) + pt]) - wantv) > 1e-6 * (1 + abs(wantv)):
                         fail(f"C14:spatial_derivatives:bspline:value",
-                             f"{desc} key {key}: value {float(v[(b_, 0) + pt])} at {pt}, analytic {wantv}", case=desc, key=key)
+                             f"{desc} key {key}: value {float(v[(b_, 0) + pt])} at {pt}, analytic {wantv}", case=desc, dkey=key)
                         bad = True
                         break
                 if bad:
